@@ -6,7 +6,7 @@
    Theorems quantify over every codec that satisfies the stated law, every configuration, framing
    (Content-Length / chunked / until-EOF), segmentation, close point and consumer schedule (`evs`), and every
    recursion fuel.  `init c t len enc` is the state right after the message head was parsed. *)
-From AV Require Import Lib.Base Generated.DecodeGen Model.Decode Proofs.DecodeBasic Proofs.DecodeBound Proofs.DecodeProgress Proofs.DecodeHandler Proofs.DecodeInst.
+From AV Require Import Lib.Base Generated.DecodeGen Model.Decode Proofs.DecodeBasic Proofs.DecodeCommon Proofs.DecodeBound Proofs.DecodeProgress Proofs.DecodeHandler Proofs.DecodeInst.
 
 (* ---- bounded memory ------------------------------------------------------------------------------
    Whatever the compression ratio: if one decompress_sync(data, max_length = m) call returns at most capf m
